@@ -158,7 +158,8 @@ func (o *apiStreamObfuscator) filterBodyExclusions(exclusionPrefix string) []str
 	var bodyExclusions []string
 	for _, exclusion := range o.obfuscateExclusions {
 		if strings.HasPrefix(exclusion, exclusionPrefix) {
-			bodyExclusions = append(bodyExclusions, exclusion)
+			// hand the obfuscator the path inside the body (cursor notation)
+			bodyExclusions = append(bodyExclusions, strings.TrimPrefix(exclusion, exclusionPrefix))
 		}
 	}
 	return bodyExclusions
